@@ -120,6 +120,15 @@ Qed.
 Lemma lbuf_rd_any_chunking lb c1 c2 b e : concat c1 = concat c2 -> lbuf_rd lb c1 b e = lbuf_rd lb c2 b e.
 Proof. intro H. unfold lbuf_rd. rewrite !rd_sbuf_data, H. reflexivity. Qed.
 
+Lemma read_any_chunking chunks b e :
+  (exists lb, lbuf_rd lbuf_make chunks b e = Some lb /\ ln lb = split_lines (concat chunks)) /\
+  (forall lb chunks', concat chunks = concat chunks' -> lbuf_rd lb chunks b e = lbuf_rd lb chunks' b e).
+Proof.
+  split.
+  - destruct (lbuf_rd_empty chunks b e) as [lb [A [B _]]]. exists lb. split; assumption.
+  - intros lb c2 H. apply lbuf_rd_any_chunking, H.
+Qed.
+
 (* ------------------------------------------------------------------ capacity of sbuf *)
 Lemma SBUFSZ_pow2 : SBUFSZ = (2 ^ Z.log2 SBUFSZ)%Z /\ (0 < SBUFSZ)%Z.
 Proof. split; reflexivity. Qed.
